@@ -208,6 +208,31 @@ func CollationRegistry(prop, tier string) []UniverseDef {
 			}
 		}
 	}
+	if prop == "C08" {
+		// byte-slice keys handed over in one reused buffer (scanner idiom): keys must come back as inserted
+		for i, sp := range fams {
+			if i > 1 && tier != "thorough" {
+				continue
+			}
+			sp := sp
+			for _, cfg := range []CollatorCfg{und, cols[4]} {
+				cfg := cfg
+				name := fmt.Sprintf("collation[[]byte,%s]/%s/buf-shared", cfg.Name, sp.Name)
+				custom := cfg.Name != "und"
+				out = append(out, UniverseDef{Name: name, Build: func() *Universe {
+					base := NewCollUniverse(sp, cfg, "[]byte", custom)
+					u := c13Universe(base, BufShared, func() art.Tree[[]byte, int] {
+						if custom {
+							return art.NewCollationSortedTree[[]byte, int](art.WithCollator[[]byte, int](cfg.New()))
+						}
+						return art.NewCollationSortedTree[[]byte, int]()
+					})
+					u.Name = name
+					return u
+				}})
+			}
+		}
+	}
 	if prop == "C08" || tier == "thorough" {
 		for _, sp := range CollPrefixFamilies() {
 			sp.Prefix = false
